@@ -537,7 +537,7 @@ class Inliner:
         if kind == 'method' and cls is None:
             return None
         if kind == 'func':
-            if cls is not None:
+            if cls is not None and parent is None:
                 return None
             if parent is not None:
                 # nested helper: callable only inside its parent
@@ -586,8 +586,9 @@ class Inliner:
         params = _params(node)
         is_static = any(isinstance(d, ast.Name) and d.id == 'staticmethod' for d in node.decorator_list)
         is_classmethod = any(isinstance(d, ast.Name) and d.id == 'classmethod' for d in node.decorator_list)
-        bound = cls is not None and not is_static
-        if is_classmethod and not (isinstance(call.func, ast.Attribute) and isinstance(call.func.value, ast.Name) and call.func.value.id in ('cls',)):
+        bound = cls is not None and not is_static and parent is None
+        on_self = is_classmethod and isinstance(call.func, ast.Attribute) and isinstance(call.func.value, ast.Name) and call.func.value.id == 'self'
+        if is_classmethod and not on_self and not (isinstance(call.func, ast.Attribute) and isinstance(call.func.value, ast.Name) and call.func.value.id in ('cls',)):
             raise NotInlinable('classmethod called on something other than cls')
         args: Dict[str, ast.AST] = {}
         pos = list(call.args)
@@ -595,7 +596,8 @@ class Inliner:
         if bound:
             if not names:
                 raise NotInlinable('method without self')
-            args[names[0]] = call.func.value
+            # a classmethod reached through an instance receives the instance's class
+            args[names[0]] = ast.Attribute(value=ast.Name(id='self', ctx=ast.Load()), attr='__class__', ctx=ast.Load()) if on_self else call.func.value
             names = names[1:]
         n_pos = len(node.args.posonlyargs) + len(node.args.args) - (1 if bound else 0)
         if len(pos) > n_pos:
@@ -1682,6 +1684,24 @@ class Canon:
             i = 0
             while i < len(lst):
                 st = lst[i]
+                # `pass` next to other statements, `else: pass`, `if c: pass else: B` (what guard clauses leave behind when a helper is expanded)
+                if isinstance(st, ast.Pass) and len(lst) > 1:
+                    del lst[i]
+                    self.counts['Z'] = self.counts.get('Z', 0) + 1
+                    changed = True
+                    continue
+                if isinstance(st, ast.If):
+                    only_pass = lambda b: len(b) == 1 and isinstance(b[0], ast.Pass)
+                    if st.orelse and only_pass(st.orelse):
+                        st.orelse = []
+                        self.counts['Z'] = self.counts.get('Z', 0) + 1
+                        changed = True
+                    # (a dispatch `if n == 0: pass / elif n == 1: .. / else: ..` keeps its cases: only a plain alternative is flipped)
+                    if only_pass(st.body) and st.orelse and not (len(st.orelse) == 1 and isinstance(st.orelse[0], ast.If) and st.orelse[0].orelse):
+                        st.test = ast.UnaryOp(op=ast.Not(), operand=st.test)
+                        st.body, st.orelse = st.orelse, []
+                        self.counts['Z'] = self.counts.get('Z', 0) + 1
+                        changed = True
                 # `for x in iter(E)` -> `for x in E`
                 if isinstance(st, ast.For) and isinstance(st.iter, ast.Call) and isinstance(st.iter.func, ast.Name) and st.iter.func.id == 'iter' and len(st.iter.args) == 1 \
                         and not st.iter.keywords:
